@@ -21,6 +21,8 @@ Clause → theorem
   same stream ⇒ same sample (reproducibility given the generator)      same_stream_same_sample
   size handed to the leaf sampler; one draw per conditioning value     rvsSize_spec, rvsSize_flat_iff,
                                                                        cond_one_draw_per_row
+  a leaf that samples by inversion follows its cdf: P(Q(U) ≤ x) = F(x)    inverse_transform_cdf
+  … and the rational doubles of the harness are such leaves              ratDouble_galois, ratDouble_follows_cdf
   PARTIAL (runtime): numpy's stream is i.i.d. uniform, scipy's non-inversion samplers follow
   their cdf, different seeds differ — validated with DKW bounds at error probability 1e-12.
 -/
@@ -28,6 +30,8 @@ import VirVerif.Lemmas.Hier
 import VirVerif.Model.Sampling
 import Mathlib.Data.List.Basic
 import Mathlib.Tactic.Linarith
+import Mathlib.Tactic.FieldSimp
+import Mathlib.MeasureTheory.Measure.Lebesgue.Basic
 
 namespace VirVerif.C07
 open VirVerif
@@ -155,6 +159,74 @@ theorem unbroadcast_constant_draws_once (N : Nat) :
   constructor
   · decide
   · simp [condDrawCount, condParShapes, rvsSize, vecLen?]
+
+/-! ### inversion sampling follows the cdf (real numbers, Lebesgue measure on the unit interval) -/
+section inversion
+open MeasureTheory Set
+
+/-- **univariate samples match the cdf** for a leaf that samples by inversion: if `Q` is the quantile function of
+`F` (`Q u ≤ x ↔ u ≤ F x` on the open unit interval), the uniforms `u` with `Q u ≤ x` have Lebesgue measure `F x`. -/
+theorem inverse_transform_cdf (F Q : ℝ → ℝ) (x : ℝ) (h1 : F x ≤ 1)
+    (hgal : ∀ u ∈ Ioo (0 : ℝ) 1, Q u ≤ x ↔ u ≤ F x) :
+    volume {u | u ∈ Ioo (0 : ℝ) 1 ∧ Q u ≤ x} = ENNReal.ofReal (F x) := by
+  rcases lt_or_eq_of_le h1 with hlt | heq
+  · have : {u | u ∈ Ioo (0 : ℝ) 1 ∧ Q u ≤ x} = Ioc 0 (F x) := by
+      ext u
+      constructor
+      · rintro ⟨hu, hq⟩
+        exact ⟨hu.1, (hgal u hu).1 hq⟩
+      · rintro ⟨hu0, huF⟩
+        have hu : u ∈ Ioo (0 : ℝ) 1 := ⟨hu0, lt_of_le_of_lt huF hlt⟩
+        exact ⟨hu, (hgal u hu).2 huF⟩
+    rw [this, Real.volume_Ioc, sub_zero]
+  · have : {u | u ∈ Ioo (0 : ℝ) 1 ∧ Q u ≤ x} = Ioo 0 1 := by
+      ext u
+      constructor
+      · rintro ⟨hu, _⟩; exact hu
+      · intro hu
+        exact ⟨hu, (hgal u hu).2 (by rw [heq]; exact hu.2.le)⟩
+    rw [this, Real.volume_Ioo, heq, sub_zero]
+
+/-- cdf and quantile function of the harness's rational double (`harness/doubles.py: RatDist`,
+`Model/Doubles.lean`): `F x = z/(z+s)` for `z = x - l > 0`, else `0`; `Q u = l + s·u/(1-u)`. -/
+noncomputable def ratF (s l x : ℝ) : ℝ := if 0 < x - l then (x - l) / (x - l + s) else 0
+noncomputable def ratQ (s l u : ℝ) : ℝ := l + s * u / (1 - u)
+
+/-- the double's quantile function is the generalised inverse of its cdf -/
+theorem ratDouble_galois (s l : ℝ) (hs : 0 < s) (x u : ℝ) (hu : u ∈ Ioo (0 : ℝ) 1) :
+    ratQ s l u ≤ x ↔ u ≤ ratF s l x := by
+  obtain ⟨hu0, hu1⟩ := hu
+  have h1u : 0 < 1 - u := by linarith
+  unfold ratQ ratF
+  have key : l + s * u / (1 - u) ≤ x ↔ s * u ≤ (x - l) * (1 - u) := by
+    rw [← le_sub_iff_add_le', div_le_iff₀ h1u]
+  rw [key]
+  split
+  · rename_i hz
+    have hzs : 0 < x - l + s := by linarith
+    rw [le_div_iff₀ hzs]
+    constructor <;> intro h <;> nlinarith
+  · rename_i hz
+    have hz' : x - l ≤ 0 := not_lt.mp hz
+    constructor
+    · intro h
+      have : 0 < s * u := mul_pos hs hu0
+      nlinarith
+    · intro h; linarith
+
+theorem ratF_le_one (s l : ℝ) (hs : 0 < s) (x : ℝ) : ratF s l x ≤ 1 := by
+  unfold ratF
+  split
+  · rename_i hz
+    rw [div_le_one (by linarith)]; linarith
+  · exact zero_le_one
+
+/-- the doubles' sampler (`l + s·u/(1-u)` of a uniform `u`) follows the double's cdf -/
+theorem ratDouble_follows_cdf (s l : ℝ) (hs : 0 < s) (x : ℝ) :
+    volume {u | u ∈ Ioo (0 : ℝ) 1 ∧ ratQ s l u ≤ x} = ENNReal.ofReal (ratF s l x) :=
+  inverse_transform_cdf (ratF s l) (ratQ s l) x (ratF_le_one s l hs x) (fun u hu => ratDouble_galois s l hs x u hu)
+
+end inversion
 
 /-! ### non-vacuity -/
 example : streamToRows 2 3 #[(10 : Nat), 11, 20, 21, 30, 31] =
